@@ -159,7 +159,7 @@ fn run(case: &Val) -> Val {
     let slot: std::sync::Arc<std::sync::Mutex<Option<std::sync::Arc<log4rs::Logger>>>> =
         std::sync::Arc::new(std::sync::Mutex::new(None));
     let failing: Vec<usize> = if c.len() > 4 { c[4].l().iter().map(|v| v.u()).collect() } else { vec![] };
-    let mut builder = Config::builder();
+    let mut apps = vec![];
     for (i, a) in c[0].l().iter().enumerate() {
         let follow = match nest {
             Some((ai, pi)) if ai == i => {
@@ -169,11 +169,10 @@ fn run(case: &Val) -> Val {
             _ => None,
         };
         if logkind.contains(&i) {
-            builder = builder
-                .appender(Appender::builder().build(a.str(), Box::new(LogSink { idx: i, rec: rec.clone() })));
+            apps.push(Appender::builder().build(a.str(), Box::new(LogSink { idx: i, rec: rec.clone() })));
             continue;
         }
-        builder = builder.appender(Appender::builder().build(
+        apps.push(Appender::builder().build(
             a.str(),
             Box::new(NestAppender {
                 idx: i,
@@ -184,20 +183,17 @@ fn run(case: &Val) -> Val {
             }),
         ));
     }
-    for lg in c[2].l() {
-        let lg = lg.l();
-        let mut lb = Logger::builder().additive(lg[2].b());
-        for a in lg[3].l() {
-            lb = lb.appender(a.str());
-        }
-        builder = builder.logger(lb.build(lg[0].str(), level_filter(lg[1].n())));
-    }
+    let loggers = c[2]
+        .l()
+        .iter()
+        .map(|lg| {
+            let lg = lg.l();
+            (lg[0].str(), level_filter(lg[1].n()), lg[2].b(), lg[3].l().iter().map(|a| a.str()).collect())
+        })
+        .collect();
     let r = c[1].l();
-    let mut root = Root::builder();
-    for a in r[1].l() {
-        root = root.appender(a.str());
-    }
-    let config = match builder.build(root.build(level_filter(r[0].n()))) {
+    let (builder, root) = assemble(apps, loggers, level_filter(r[0].n()), r[1].l().iter().map(|a| a.str()).collect());
+    let config = match builder.build(root) {
         Ok(c) => c,
         Err(_) => return Val::err(1),
     };
